@@ -29,10 +29,15 @@
 (* Sequentially that is the same as the bare call (C04: wrappers are transparent).  With a   *)
 (* concurrent Close the two steps can fall on both sides of it: the mutation takes effect,   *)
 (* the store is closed, the Flush - and so the call - reports ErrStoreClosed.  LinFlush is    *)
-(* that second step.                                                                        *)
+(* that second step.  Under the letter of C05 (a completed call that reports ErrStoreClosed    *)
+(* had no effect) this is a defect of flushkv, recorded as a KNOWN finding: the free-running   *)
+(* histories are judged with FlushWraps = {"flush"} (a chance occurrence never alarms), the    *)
+(* forced schedule that demonstrates it is judged with FlushWraps = {} (KVStoreConcTrace.strict.cfg). *)
 EXTENDS KVStore
 
-CONSTANTS Threads
+CONSTANTS Threads,
+          FlushWraps    \* wrapper stacks whose mutating calls are "mutation, then Flush" (two steps): {"flush"};
+                        \* {} = the STRICT reading: every call of every wrapper stack is one atomic step
 
 VARIABLES pc,     \* thread -> "idle" | "invoked" | "writing" (Commit, some writes done) |
                   \*           "flushing" (flushkv: mutation done, Flush pending) | "lin"
@@ -57,7 +62,6 @@ ThreadsReset == /\ pc'   = [t \in Threads |-> "idle"]
 ConcInit == Init /\ ThreadsInit
 
 MutOps     == {"Set", "Delete", "DeletePrefix", "Clear", "Commit"}
-FlushWraps == {"flush"}
 (* the call of t has taken effect with result r *)
 Finish(t, r) == IF cfg.wrap \in FlushWraps /\ call[t].op \in MutOps /\ r = Err("ok")
                   THEN pc' = [pc EXCEPT ![t] = "flushing"] /\ UNCHANGED res
